@@ -149,6 +149,16 @@ def cmd_replay(args):
             return 1
         say("no violation on this tree")
         return 0
+    if j.get("under") == "valgrind":
+        classes, raw = R.valgrind_case(case)
+        say(raw.get("stderr", "")[-3000:])
+        want = j.get("class")
+        say("expected class:", want, "observed:", classes)
+        if want in classes:
+            say("REPRODUCED property=%s class=%s" % (j.get("property"), want))
+            return 1
+        say("no violation on this tree" if not classes else "a different violation occurred")
+        return 0 if not classes else 2
     classes, raw = R.evaluate_case(variant, case, want_log=True, timeout=600)
     for line in (raw.get("out", {}) or {}).get("log", []):
         say(line)
